@@ -1,7 +1,9 @@
 import Req.Driver.Proto
 import Req.C02.RespSM
+import Req.C02.Call
 import Req.C02.H1Body
 import Req.C02.H1Msg
+import Req.C02.H1Full
 import Req.C02.H3Recv
 import Req.C02.H2Recv
 /-! Driver lanes of C02. -/
@@ -9,7 +11,7 @@ namespace Req.Driver.L.C02
 open Req.Proto Req.C02
 
 def rerrStr : RErr → String
-  | .ok => "ok" | .eof => "eof" | .fail => "fail" | .closed => "closed"
+  | .ok => "ok" | .eof => "eof" | .fail => "fail" | .closed => "closed" | .transport => "transport"
 
 def parseFin : String → Option Fin
   | "eof" => some .eof
@@ -21,12 +23,16 @@ def parseBool01 : Char → Option Bool
   | '1' => some true
   | _ => none
 
-/-- `c<0|1>r<0|1>s<0|1>j<0|1>` -/
+/-- `c<0|1>r<0|1>s<0|1>j<0|1>[e<0|1>]` -/
 def parseCfg (s : String) : Option Cfg :=
   match s.toList with
   | ['c', a, 'r', b, 's', c, 'j', d] => do
     let a ← parseBool01 a; let b ← parseBool01 b; let c ← parseBool01 c; let d ← parseBool01 d
     pure { clientDisable := a, reqDisable := b, save := c, result := d }
+  | ['c', a, 'r', b, 's', c, 'j', d, 'e', e] => do
+    let a ← parseBool01 a; let b ← parseBool01 b; let c ← parseBool01 c; let d ← parseBool01 d
+    let e ← parseBool01 e
+    pure { clientDisable := a, reqDisable := b, save := c, result := d, errResult := e }
   | _ => none
 
 def parseOp (s : String) : Option Op :=
@@ -149,6 +155,22 @@ def laneH1Msg : List String → String
     | _, _, _ => "bad-op"
   | _ => "bad-op"
 
+/-- `c02h1full <head 0|1> <fin> <cap> <segs> <readsize>` → view of the caller, through C04's
+head reader + the C02 body automata (the reader of `h1_response_roundtrip_*`). A head the
+byte-exact reader refuses is `error:head`. -/
+def laneH1Full : List String → String
+  | [hd, fin, cap, segs, k] =>
+    match hd.toList, parseNetEnd fin, cap.toNat?, decodeList segs, k.toNat? with
+    | [c], some fin, some cap, some segs, some k =>
+      match parseBool01 c with
+      | none => "bad-op"
+      | some isHead =>
+        match h1ReceiveView isHead cap segs fin k with
+        | .ok v => viewStr v
+        | .error _ => "error:head"
+    | _, _, _, _, _ => "bad-op"
+  | _ => "bad-op"
+
 def h3ErrStr : Option H3Err → String
   | none => "ok"
   | some .eof => "eof" | some .reset => "reset" | some .unexpectedEOF => "unexpectedEOF"
@@ -171,23 +193,32 @@ def decodeFieldLists (s : String) : Option (List (List (Bytes × Bytes))) :=
 
 /-- `c02h3recv <head 0|1> <segs> <fin> <fieldlists> <maxHeaderBytes> <reads>` →
 `status=… hdr=… n=… err=… data=… trailer=…` or `error:<e>` -/
-def laneH3Recv : List String → String
+def laneH3RecvCore (lenient : Bool) : List String → String
   | [hd, segs, fin, fls, maxh, reads] =>
+    -- `lenient`: the stream was cut by a FIN inside a frame header / a skipped frame / before the
+    -- first payload byte of a HEADERS frame: eof and unexpectedEOF are not told apart (C03's subject)
+    let errS (e : Option H3Err) : String :=
+      if lenient && (e == some .eof || e == some .unexpectedEOF) then "eof*" else h3ErrStr e
     match (match hd.toList with | [c] => parseBool01 c | _ => none),
           decodeList segs, parseNetEnd fin, decodeFieldLists fls, maxh.toNat?, decodeNatList reads with
     | some isHead, some segs, some fin, some fls, some maxh, some reads =>
       let s0 : H3Stream := { net := { segs := segs, fin := fin }, remInFrame := 0, parsedTrailer := false,
                              trailer := none, fieldLists := fls, maxHeaderBytes := maxh }
       match s0.readFinalResponse 7 0 with
-      | (.error e, _) => "error:" ++ h3ErrStr (some e)
+      | (.error e, _) => "error:" ++ errS (some e)
       | (.ok h, s1) =>
         let (rs, b') := (H3Body.new isHead h s1).runReads reads
         let lastErr := lastErr rs
         "status=" ++ toString h.status ++ " hdr=" ++ kvStr h.fields ++
-          " n=" ++ encodeNatList (rs.map fun (d, _) => d.length) ++ " err=" ++ h3ErrStr lastErr ++
+          " n=" ++ encodeNatList (rs.map fun (d, _) => d.length) ++ " err=" ++ errS lastErr ++
           " data=" ++ encodeHex (outBytes rs) ++
           " trailer=" ++ kvStr (match b'.str.trailer with | some t => t | none => [])
     | _, _, _, _, _, _ => "bad-op"
+  | _ => "bad-op"
+
+def laneH3Recv : List String → String
+  | [hd, segs, fin, fls, maxh, reads] => laneH3RecvCore false [hd, segs, fin, fls, maxh, reads]
+  | [hd, segs, fin, fls, maxh, reads, "L"] => laneH3RecvCore true [hd, segs, fin, fls, maxh, reads]
   | _ => "bad-op"
 
 def h2ErrStr : Option H2Err → String
@@ -239,11 +270,58 @@ def laneH2Recv : List String → String
     | _, _, _ => "bad-op"
   | _ => "bad-op"
 
+/-! ### multi-exchange calls -/
+
+/-- exchange: `T` | `R;<tag>;<status>;<redirect 0|1>;<fin>;<chunks>` -/
+def decodeExch (s : String) : Option Exch :=
+  match s.splitOn ";" with
+  | ["T"] => some .terr
+  | ["R", tag, st, rd, fin, cks] => do
+    let tag ← tag.toNat?
+    let st ← st.toNat?
+    let rd ← (match rd.toList with | [c] => parseBool01 c | _ => none)
+    let fin ← parseFin fin
+    let cks ← decodeList cks
+    pure (.resp tag st rd cks fin)
+  | _ => none
+
+def decodeScript (s : String) : Option (List Exch) :=
+  if s == "none" then some [] else (s.splitOn "/").mapM decodeExch
+
+def parseDigestAt : String → Option DigestAt
+  | "o" => some .off | "c" => some .client | "r" => some .request | _ => none
+
+def parseRetryCond : String → Option RetryCond
+  | "d" => some .dflt | "s" => some .status | "e" => some .either | _ => none
+
+/-- `c02call <cfg> <file 0|1> <digest o|c|r> <retries> <cond d|s|e> <script> <ops>` →
+`err=<e> resp=<0|1> st=<status> ex=<tag> res=<hex|nil> eres=<hex|nil> out=<hex|nil> left=<n> obs=<o;o;…>` -/
+def laneCall : List String → String
+  | [cfg, file, dg, n, cond, script, ops] =>
+    match parseCfg cfg, (match file.toList with | [c] => parseBool01 c | _ => none), parseDigestAt dg,
+          n.toNat?, parseRetryCond cond, decodeScript script, parseOps ops with
+    | some base, some file, some dg, some n, some cond, some script, some ops =>
+      let ccfg : CCfg := { base := base, file := file, digest := dg, maxRetries := n, cond := cond }
+      let (c, out, rest) := call ccfg script
+      let c := c.v
+      let e0 := match c.r.err with | none => "ok" | some e => rerrStr e
+      let (obs, _) := c.r.run ops
+      "err=" ++ e0 ++ " resp=" ++ (if c.hasResp then "1" else "0") ++ " st=" ++ toString c.r.status ++
+        " ex=" ++ toString c.tag ++ " res=" ++ optStr c.result ++ " eres=" ++ optStr c.error ++
+        -- a writer that was never written to and one that received zero bytes look the same
+        " out=" ++ (if base.save && !file then encodeHex (match out with | some b => b | none => []) else optStr out) ++
+        " left=" ++ toString rest.length ++ " obs=" ++
+        (if obs.isEmpty then "-" else ";".intercalate (obs.map fun x => obsStr x.2))
+    | _, _, _, _, _, _, _ => "bad-op"
+  | _ => "bad-op"
+
 def lanes : List (String × (List String → String)) := [
+  ("c02call", laneCall),
   ("c02ops", laneOps),
   ("c02h2recv", laneH2Recv),
   ("c02h3recv", laneH3Recv),
   ("c02h1msg", laneH1Msg),
+  ("c02h1full", laneH1Full),
   ("c02h1body", laneH1Body)
 ]
 
